@@ -143,7 +143,8 @@ KeyMaps == << [keys |-> (7 :> Root) @@ (8 :> Root) @@ (9 :> Root), def |-> Root]
               [keys |-> (7 :> OtherRoot) @@ (8 :> Root) @@ (9 :> Root), def |-> Root],     \* right key only under OTHER ids
               [keys |-> (8 :> OtherRoot), def |-> Root],
               [keys |-> (7 :> Root), def |-> 0],
-              [keys |-> (8 :> Root) @@ (9 :> OtherRoot), def |-> OtherRoot] >>
+              [keys |-> (8 :> Root) @@ (9 :> OtherRoot), def |-> OtherRoot],
+              [keys |-> (7 :> 0) @@ (8 :> Root), def |-> Root] >>                           \* id 7 registered with an EMPTY key: no key, never the default
 Lookup(rid, m) == IF rid = 0 THEN m.def ELSE IF rid \in DOMAIN m.keys THEN m.keys[rid] ELSE 0
 LookupOutcome(t, m) == LET K == Lookup(t.rid, m) IN IF K = 0 THEN "nokey" ELSE IF Verify(t, K) THEN "ok" ELSE "badsig"
 \* the token is verified against exactly the key registered under ITS identifier (or the default when it has none)
